@@ -63,7 +63,7 @@ def res_lines(evs):
     last_merged = 0
     for e in evs:
         t = e["t"]
-        if t in ("obs", "bgfail", "libobs"):
+        if t in ("obs", "bgfail", "libobs", "blocked"):
             lines.append(e)
         elif t == "open":
             lines.append({"t": t, "bg": bool(e.get("bg")), "tables": len(e["tables"]) if isinstance(e.get("tables"), list) else int(e.get("tables") or 0)})
@@ -86,6 +86,10 @@ def run(tier):
     nsess = 48 if thorough else 4
     jobs = [("s%d" % i, session(rng, rng.choice([200, 500, 1200]) if thorough else rng.choice([50, 120]), bg=(i % 2 == 1))) for i in range(nsess)]
 
+    # Close while the last flush takes a long time (the flusher is held for 33 s at its gate): Close must still be waiting
+    jobs.append(("slowflush", [dbgen.open_step(2, 1 << 30, 1000, mem=1 << 30, bg=False), {"op": "obs"},
+                               {"op": "window", "v": "close-while-flushing", "us": 33000000}, {"op": "obs"}]))
+
     def do(job):
         name, steps = job
         trace = dbrun.run_db_batch(binary, "C19-" + name, [steps], seed=SEED, timeout=400, env={"GOGC": "off"})
@@ -107,6 +111,10 @@ def run(tier):
     for k in ("table", "super"):
         for ops in opsets:
             libcases.append({"kind": k, "ops": ops, "n": rng.choice([5, 60, 400])})
+    # every interleaving of the life cycles of up to three scanners on one reader, then Close (behaviours of Scanners.tla, all 1 711)
+    scripts, _ = judge.gen_behaviours("Scanners.tla", "Gen_Scanners.cfg", workers=4, outcome=o, what="all interleavings of <= 3 scanner life cycles + Close")
+    scripts = list({json.dumps(b): b for b in scripts}.values())
+    libcases.append({"kind": "scripts", "ops": [], "n": 12, "scripts": scripts})
     for ld in ("disk", "map", "skiplist", "slice"):
         for hm in ("", "read"):
             libcases.append({"kind": "table", "ops": ["scanabandon", "get", "range", "scan"], "n": rng.choice([5, 60, 400]), "loader": ld, "hash": hm})
